@@ -37,7 +37,7 @@ def main(tier, replay=None):
         vk_run(res, "c18spawn", plain, rd, "%d,0,0,0" % pb, pb, 1500, "%s-relays-child-fate" % prog, opts=["family=fate", "prog=" + prog])
         vk_run(res, "c18spawn", plain, rd, "0,0,0,0", 0, 1500, "%s-slot-used-again" % prog, opts=["family=reuse", "prog=" + prog, "seqlen=%d" % (2 if tier == "quick" else 3)])
     # program level: the real qmail-remote process with scripted resolver answers, connect() outcomes and SMTP server
-    for fam, opts in (("dns", []), ("connect", []), ("smtp", ["maxrcpt=%d" % (2 if tier == "quick" else 3)]), ("msg", ["maxlen=%d" % (3 if tier == "quick" else 5)])):
+    for fam, opts in (("dns", []), ("connect", []), ("tcpto", []), ("smtp", ["maxrcpt=%d" % (2 if tier == "quick" else 3)]), ("msg", ["maxlen=%d" % (3 if tier == "quick" else 5)])):
         vk_run(res, "remote", plain, rd, "0,0,0,0", 0, 1500, "qmail-remote-process-" + fam, opts=["family=" + fam] + opts)
     res.rule = ("depth-first enumeration of the complete tree of server scripts: at each phase (greeting, HELO, MAIL, each RCPT, DATA, "
                 "final dot) every answer of the phase's pool (reply codes of classes 2xx-5xx incl. boundary codes 399/400/499/500/599 in "
@@ -53,7 +53,7 @@ def main(tier, replay=None):
     res.rule += ("; program level (VK): the real qmail-remote process with the resolver, connect() and the peer scripted: 13 DNS situations (MX with "
                  "and without addresses, fallback to the host's address, no such domain, resolver failure, MX pointing back to this host, CNAME-only, "
                  "truncated/short MX records), 3 candidate addresses x {connected, refused, timed out, asynchronously connected/refused} each x "
-                 "{normal, 4xx greeting}: attempts in preference order stopping at the first success; 1-3 recipients x the tree of {2xx,4xx,5xx,"
+                 "{normal, 4xx greeting}: attempts in preference order stopping at the first success; 4 states of lock/tcpto (all candidates marked as timed out once/twice, 100/3000/10000 s ago): marked addresses are not tried and the verdict is then a deferral; 1-3 recipients x the tree of {2xx,4xx,5xx,"
                  "closed,stalled until the timeout} per phase; verdicts, order of reports, 'possible duplicate' flag and exit status against the reference")
     res.assumptions = ["reference verdict function written from qmail-remote(8) and the property statement (seq/c09_remote.c ref_verdict)",
                        "function level: network = harness stand-ins for timeoutread/timeoutwrite; program level: resolver answers, connect() results and the peer are scripted by the virtual kernel scenario (vk/scn_remote.cpp)"]
